@@ -11,7 +11,7 @@ def run(R):
     obs = check.verify_functions(R, names)
     obs += common.avr_pass(R, names, leave_out=('SystemClock::getNow#',))
     obs += common.lemma_obligations(R, 'C13')
-    check.discharge(R, obs, timeout=120)
+    check.discharge(R, obs, timeout=360)     # the budget matters only for obligations that fail: the exact-time counter-model of a broken getNow takes z3 about 110 s
     R.assumptions += [
         'ghost time: clockMillis() returns (true elapsed ms) mod 2^32 and is constant during one call; true elapsed ms < 2^62',
         'reference / backup Clock objects are distinct from the SystemClock object and do not modify it (their virtual methods are assumed contracts that only record the call)',
